@@ -367,12 +367,13 @@ NS_K = [10 ** 8, 10 ** 9, 2 ** 31, 2 ** 36 + 1, 10 ** 12]  # float potentials of
 
 def _small_core(rng):
     """A core instance small enough for the brute-force oracle (its optimum anchors the by-construction answers)."""
+    big = rng.random() < 0.5  # half of them beyond brute force: optimum from the negative-cycle-cancelling oracle alone
     while True:
-        core = gen_mcf_core(rng, False, n=rng.choice([3, 4, 4, 5]), max_arcs=7)
+        core = gen_mcf_core(rng, True, n=rng.choice([5, 6, 7, 8]), max_arcs=14) if big else gen_mcf_core(rng, False, n=rng.choice([3, 4, 4, 5]), max_arcs=7)
         size = 1
         for a in core["arcs"]:
             size *= a[2] + 1
-        if size <= BRUTE_LIMIT and core["arcs"]:
+        if (big or size <= BRUTE_LIMIT) and core["arcs"]:
             return core
 
 
@@ -412,22 +413,47 @@ def gen_mcf_magnitude(rng):
     return assemble_mcf(rng, core2, labels="legacy" if rng.random() < 0.7 else rng.choice(LABEL_FAMILIES), extra=extra)
 
 
+def _ns_base(rng):
+    """A network_simplex instance with small numbers, 3..10 nodes and up to 25 arcs (too large for brute force; its optimum comes from
+    the exact negative-cycle-cancelling oracle), mostly feasible, needing several pivots."""
+    n = rng.choice([3, 4, 5, 6, 7, 8, 9, 10])
+    cost = _cost_fn(rng, n, rng.choice(["nonneg", "potential", "potential", "wide"]))
+    arcs = []
+    for _ in range(rng.randint(n, min(25, 3 * n))):
+        u, v = rng.sample(range(n), 2)
+        arcs.append((u, v, rng.randint(0, 5), cost(u, v)))
+    sup = [0] * n
+    if rng.random() < 0.85:
+        for u, v, c, _ in arcs:
+            x = rng.randint(0, c) if rng.random() < 0.6 else 0
+            sup[u] += x
+            sup[v] -= x
+    else:
+        for _ in range(rng.randint(1, 6)):
+            a, b = rng.sample(range(n), 2)
+            sup[a] += 1
+            sup[b] -= 1
+    return n, arcs, sup
+
+
 def gen_ns_magnitude(rng):
-    while True:
-        inst = gen_ns(rng)
-        size = 1
-        for a in inst["arcs"]:
-            size *= a[2] + 1
-        if inst["n"] >= 2 and inst["arcs"] and size <= BRUTE_LIMIT and inst["max_iter"] is None:
-            break
-    n, arcs, sup = inst["n"], [tuple(a) for a in inst["arcs"]], inst["supplies"]
+    if rng.random() < 0.3:
+        while True:
+            inst = gen_ns(rng)
+            if inst["n"] >= 2 and inst["arcs"] and inst["max_iter"] is None:
+                break
+        n, arcs, sup = inst["n"], [tuple(a) for a in inst["arcs"]], inst["supplies"]
+    else:
+        n, arcs, sup = _ns_base(rng)
     opt, _ = optimum_of(n, arcs, sup)
     mode = rng.choice(["shift", "shift", "shift", "scale", "mixed", "caps"])
     K = rng.choice(NS_K if mode != "caps" else MCF_K)
     arcs2, sup2, fn = magnify(rng, n, arcs, sup, K, mode)
     out = {"n": n, "arcs": [list(a) for a in arcs2], "supplies": sup2, "max_iter": None, "tag": f"magnitude/{mode}/{K}"}
     if fn is not None:
-        out.update({"oracle": "expect", "expect_opt": fn(opt) if sum(sup) == 0 else None, "exact_ok": mode != "caps"})
+        out.update({"oracle": "expect", "expect_opt": fn(opt) if sum(sup) == 0 else None, "exact_ok": mode != "caps" and len(arcs) <= 12})
+    elif len(arcs) > 12:
+        out["oracle"] = "cert"
     return out
 
 
@@ -1287,7 +1313,7 @@ def run(ctx: Ctx):
     # round-2 families (HARDENING.md): M magnitudes, S sizes, O option sweeps; L labels / I containers / A aliasing ride on every case
     n_mag = 60 if not big else 700  # round-2 families have fixed sizes per tier (not tripled on drift: the base families are)
     mcf_insts += [gen_mcf_magnitude(ctx.rng) for _ in range(n_mag)]
-    ns_insts += [gen_ns_magnitude(ctx.rng) for _ in range(n_mag)]
+    ns_insts += [gen_ns_magnitude(ctx.rng) for _ in range(3 * n_mag)]
     as_insts += [gen_assign_magnitude(ctx.rng) for _ in range(n_mag // 2)]
     rng = ctx.rng
     mcf_insts += [large_mcf(rng, 17, "chain", o) for o in ("reverse", "zigzag", "shuffle", "forward")]
@@ -1511,13 +1537,13 @@ MAX_HANGS = 3
 
 def search(ctx, big):
     """Much larger random budget, judged by the oracle only."""
-    for _ in range(6000):
-        inst = gen_mcf(ctx.rng, True)
+    for k in range(6000):
+        inst = gen_mcf(ctx.rng, True) if k % 3 else gen_mcf_magnitude(ctx.rng)
         c = mcf_case(inst)
         if c["bad"]:
             ctx.violation(f"min_cost_flow: {c['bad']}", {"kind": "mcf", **inst, "impl": c["out"], "optimum": c["optimum"]})
             return True
-        inst = gen_ns(ctx.rng, True)
+        inst = gen_ns(ctx.rng, True) if k % 3 else gen_ns_magnitude(ctx.rng)
         c = ns_case(inst)
         if c["bad"]:
             ctx.violation(f"network_simplex: {c['bad']}", {"kind": "ns", **inst, "impl": c["out"], "optimum": c["optimum"]})
